@@ -76,7 +76,38 @@ CHECKS = {
    "Random and related vector clocks (padding, one component off) and complete small spaces for pairs and triples: partial order laws, equality/hash compatibility, merge_max as least upper bound, incremented; dense maps vs a Vec model incl. order independence, gap/duplicate rejection, insert and rewrite under plans with ties.",
    "Components stay below u32::MAX (release build without overflow checks).",
    "DESIGN.md section 5 C20"),
+ "C10": (True, "exploration",
+   "runtime monitoring: representative()/reindex/rewrite outputs vs an independently applied stable-sort permutation and brute-force orbits; DFS with vs without symmetry on symmetric models",
+   "Plans from vectors with ties vs an independent stable-sort permutation; every structural Rewrite impl must commute with it; representative() of generated and reachable actor-system states vs the permutation applied by hand to every component (orbit membership by brute force over n!); symmetric process-vector models and symmetric actor systems checked by DFS with and without symmetry (verdict equality, class/reachable count bounds, class coverage, path validity).",
+   "Symmetric models are generated to be literally invariant under renaming; canonicity of representatives is not demanded.",
+   "DESIGN.md section 5 C10"),
+ "C15": (True, "exploration",
+   "runtime monitoring: bisimulation monitor walking adapter-wrapped and bare systems in lock-step through the real ActorModel",
+   "Table actors using messages, timers and random choices are wrapped in Choice (all positions, three actor types), Choice<A,Never>, RegisterActor::Server, WORegisterActor::Server and a nesting; wrapped and bare systems are compared state pair by state pair (enabled actions, successors, inner states, network, timers, choices, crash flags). The scripted Vec client is driven directly.",
+   "The bare system is the oracle (its own semantics is C06's subject); name() is judged for Choice only.",
+   "DESIGN.md section 5 C15"),
+ "C16": (True, "exploration",
+   "runtime monitoring: prefix / exactly-once / ack-after-hand-over checker over send and hand-over logs of link-wrapped actors along hostile walks and real BFS runs",
+   "Link-wrapped actors with unique payloads over a lossy duplicating unordered network, hostile schedulers (reorder, duplicate, drop, resend) and the real BFS searching the same clauses as an always-property. One genuine defect (overtaken message acknowledged and never handed over) is recorded as a known finding and identified by its exact cause; every other violation is reported.",
+   "The equality clause is checked through its safety core (a message neither pending nor handed over); actors do not restart.",
+   "DESIGN.md section 5 C16"),
+ "C17": (True, "exploration",
+   "runtime monitoring: offline trace checker over the handler-invocation and datagram log of real spawn() runs on loopback UDP",
+   "Worker subprocesses run the real UDP runtime with instrumented actors; a driver sends scripted, garbage and oversized datagrams and receives the actors' output; the recorded log is checked for start-once-first, message causality and sender identity, one datagram per Send at the encoded address, timers firing only while armed and not before the latest lower bound, and state threading. Id/address conversions are checked on random and edge values.",
+   "Loopback UDP may drop: missing deliveries are bounded-progress misses, not violations; no upper bound on timer latency.",
+   "DESIGN.md section 5 C17"),
+ "C18": (True, "exploration",
+   "runtime monitoring: is_valid_step/is_valid_history vs invoke on random sequences; reconstructed client-visible history vs the recorded tester along walks of register-harness models",
+   "Reference objects: random valid/invalid op-return sequences for the three provided specs. Register harness: generated servers (immediate / round trip / never, correct or arbitrary values, at most one answer) with 1-3 clients on all networks incl. duplicating + lossy; the provided record hooks are wrapped to log raw envelopes, and at every state the recorded tester must equal the replay of client-visible calls, be well-formed, with one outstanding operation and fresh ids per client.",
+   "Object state after a failing step is not compared; servers answer at most once as the statement assumes.",
+   "DESIGN.md section 5 C18"),
+ "C19": (True, "exploration",
+   "runtime monitoring: real HTTP responses of serve() vs the Model API computed directly; Path API round trips; on-demand requests tracked against the pending frontier",
+   "The real Explorer is served on loopback in worker subprocesses and queried with valid and mutated fingerprint paths, status polls and run-to-completion; views, 404s, counts and decoded property paths are compared with the model. Path::from_actions/encode/from_fingerprints/final_state round trips on visitor and discovery paths. The on-demand checker is driven through the Checker API with exact tracking of the pending frontier, then must finish like BFS and join.",
+   "ui/app.js needs a browser and is not exercised; recent_path/svg are not judged.",
+   "DESIGN.md section 5 C19"),
 }
+
 
 NOT_BUILT_REASON = "check not built yet in this session (work in progress; see DESIGN.md section 5)"
 
